@@ -45,6 +45,9 @@ pub const OP_NAMES: [&str; 37] = [
     "chacha8_4200", "blake256_2100", "blake512_4300", "groestl256_600", "jh256_300", "skein512_1100",
 ];
 pub const NOPS: u64 = 37;
+/// 2^8 - 10 (default) or 2^16 - 10 (argument): a narrow counter bumped once or twice per construction wraps within the next
+/// twenty constructions
+pub const WARMUP8: u64 = 246;
 
 fn long_msg(tag: u64, n: usize) -> Vec<u8> {
     let mut s = tag ^ 0x5555;
@@ -54,6 +57,50 @@ fn long_msg(tag: u64, n: usize) -> Vec<u8> {
     }
     v.truncate(n);
     v
+}
+
+fn long_off(tag: u64) -> usize {
+    1 + ((tag >> 24) % 15) as usize
+}
+
+/// construct (and drop) one instance of the type behind operation kind `kind`: the warm-up of the wrap workloads
+fn construct(kind: u64, i: u64) -> u64 {
+    let mut key = [0u8; 128];
+    key[..8].copy_from_slice(&i.to_le_bytes());
+    let k32 = GenericArray::from_slice(&key[..32]);
+    match kind {
+        0 | 29 | 34 => std::mem::size_of_val(&Groestl256::default()) as u64,
+        1 => std::mem::size_of_val(&Groestl512::default()) as u64,
+        2 => std::mem::size_of_val(&Groestl224::default()) as u64,
+        3 => std::mem::size_of_val(&Groestl384::default()) as u64,
+        4 | 35 => std::mem::size_of_val(&Jh256::default()) as u64,
+        5 | 30 | 32 => std::mem::size_of_val(&Blake256::default()) as u64,
+        6 | 33 => std::mem::size_of_val(&Blake512::default()) as u64,
+        7 => std::mem::size_of_val(&ChaCha20::new(k32, GenericArray::from_slice(&key[32..40]))) as u64,
+        8 => std::mem::size_of_val(&Ietf::new(k32, GenericArray::from_slice(&key[32..44]))) as u64,
+        9 => std::mem::size_of_val(&Skein256::<U32>::default()) as u64,
+        10 => std::mem::size_of_val(&Threefish256::new(k32)) as u64,
+        11 | 14 | 36 => std::mem::size_of_val(&Skein512::<U64>::default()) as u64,
+        12 | 28 => std::mem::size_of_val(&Skein1024::<U128>::default()) as u64,
+        13 => std::mem::size_of_val(&Jh512::default()) as u64,
+        15 => std::mem::size_of_val(&Blake224::default()) as u64,
+        16 => std::mem::size_of_val(&Blake384::default()) as u64,
+        17 => std::mem::size_of_val(&Jh224::default()) as u64,
+        18 => std::mem::size_of_val(&Jh384::default()) as u64,
+        19 | 31 => std::mem::size_of_val(&ChaCha8::new(k32, GenericArray::from_slice(&key[32..40]))) as u64,
+        20 => std::mem::size_of_val(&ChaCha12::new(k32, GenericArray::from_slice(&key[32..40]))) as u64,
+        21 => std::mem::size_of_val(&XChaCha8::new(k32, GenericArray::from_slice(&key[32..56]))) as u64,
+        22 => std::mem::size_of_val(&XChaCha12::new(k32, GenericArray::from_slice(&key[32..56]))) as u64,
+        23 => std::mem::size_of_val(&XChaCha20::new(k32, GenericArray::from_slice(&key[32..56]))) as u64,
+        24 => std::mem::size_of_val(&Threefish512::new(GenericArray::from_slice(&key[..64]))) as u64,
+        25 => std::mem::size_of_val(&Threefish1024::new(GenericArray::from_slice(&key[..128]))) as u64,
+        26 => {
+            let mut k = [0u8; 32];
+            k.copy_from_slice(&key[..32]);
+            std::mem::size_of_val(&ChaCha::new(&k, &key[32..40])) as u64
+        }
+        _ => std::mem::size_of_val(&Skein256::<U64>::default()) as u64,
+    }
 }
 
 /// one short operation on a private instance; message/key derived from the tag so that every result is unique
@@ -155,15 +202,17 @@ fn op(kind: u64, tag: u64) -> u64 {
         31 => {
             // (the 8-round variant: the same code path for a fraction of the interpreter time)
             let mut c = ChaCha8::new(GenericArray::from_slice(&msg[..32]), GenericArray::from_slice(&msg[32..40]));
-            let mut buf = long_msg(tag, 4200);
-            c.apply_keystream(&mut buf);
-            fold(&buf)
+            let mut buf = long_msg(tag, 4200 + 16);
+            let off = long_off(tag);
+            c.apply_keystream(&mut buf[off..off + 4200]);
+            fold(&buf[off..off + 4200])
         }
-        32 => fold(&Blake256::digest(&long_msg(tag, 2100))),
-        33 => fold(&Blake512::digest(&long_msg(tag, 4300))),
-        34 => fold(&Groestl256::digest(&long_msg(tag, 600))),
-        35 => fold(&Jh256::digest(&long_msg(tag, 300))),
-        36 => fold(&Skein512::<U64>::digest(&long_msg(tag, 1100))),
+        // (the long inputs start 1..15 bytes after the allocation: a bulk path may treat misaligned input differently)
+        32 => fold(&Blake256::digest(&long_msg(tag, 2100 + 16)[long_off(tag)..long_off(tag) + 2100])),
+        33 => fold(&Blake512::digest(&long_msg(tag, 4300 + 16)[long_off(tag)..long_off(tag) + 4300])),
+        34 => fold(&Groestl256::digest(&long_msg(tag, 1100 + 16)[long_off(tag)..long_off(tag) + 1100])),
+        35 => fold(&Jh256::digest(&long_msg(tag, 330 + 16)[long_off(tag)..long_off(tag) + 330])),
+        36 => fold(&Skein512::<U64>::digest(&long_msg(tag, 1100 + 16)[long_off(tag)..long_off(tag) + 1100])),
         29 => {
             let mut h = Groestl256::new();
             h.update(&msg[..n / 2]);
@@ -183,6 +232,11 @@ fn op(kind: u64, tag: u64) -> u64 {
 /// workload `w`: (threads, per-thread op lists). Every thread's FIRST call is of the focus kind.
 fn workload(base: u64, w: u64) -> Vec<Vec<(u64, u64)>> {
     let mut s = base ^ w.wrapping_mul(0x1234_5678_9abc_def1);
+    if w >= 2 * NOPS + 31 {
+        // "wrap" workloads: the hammer below, after 246 (or 65526) constructions of the same type on the main thread (run mode does
+        // them): a use counter narrower than the number of instances a process creates wraps during the hammer
+        return workload(base ^ 0x7772_6170, w - 31);
+    }
     if w >= 2 * NOPS {
         // "hammer" workloads: three threads make the same kind of short call ten times each, alternating between two
         // arguments of their own - anything cached or shared between calls (per process, not per instance) is written and
@@ -201,6 +255,11 @@ fn workload(base: u64, w: u64) -> Vec<Vec<(u64, u64)>> {
         return out;
     }
     let focus = w % NOPS;
+    if focus >= 31 && w >= NOPS {
+        // the second bulk workload of each kind: five threads, one long call each (a pool of shared scratch buffers sized for
+        // "a few" concurrent callers is over-subscribed only by many)
+        return (0..5).map(|_| vec![(focus, splitmix(&mut s))]).collect();
+    }
     let threads = if focus >= 31 { 3 } else { 2 + splitmix(&mut s) % 3 };
     let steps = if focus >= 31 { 1 } else { 2 + splitmix(&mut s) % 3 };
     let mut out = Vec::new();
@@ -405,7 +464,7 @@ fn main() {
             let plan = workload(base, w);
             let expected: Vec<u64> = table[w as usize].split(',').filter_map(|x| u64::from_str_radix(x, 16).ok()).collect();
             let threads = plan.len();
-            println!("WORKLOAD {} threads={} first={}", w, threads, if w >= 2 * NOPS { format!("{}_x10", OP_NAMES[((w - 2 * NOPS) % 31) as usize]) } else { OP_NAMES[(w % NOPS) as usize].to_string() });
+            println!("WORKLOAD {} threads={} first={}", w, threads, if w >= 2 * NOPS + 31 { format!("{}_x10_after_warmup", OP_NAMES[((w - 2 * NOPS - 31) % 31) as usize]) } else if w >= 2 * NOPS { format!("{}_x10", OP_NAMES[((w - 2 * NOPS) % 31) as usize]) } else { OP_NAMES[(w % NOPS) as usize].to_string() });
             // "seq": the same threads, one after the other (each joined before the next starts): tells whether a failure
             // needs the threads to overlap at all
             let seq = a.get(6).map(|x| x == "seq").unwrap_or(false);
@@ -416,6 +475,15 @@ fn main() {
             let mismatches = Arc::new(AtomicU64::new(0));
             let first_bad = Arc::new(AtomicU64::new(u64::MAX));
             // global completion order of the calls (Relaxed: adds no happens-before edge): the visible trace of the schedule
+            if w >= 2 * NOPS + 31 {
+                let kind = (w - 2 * NOPS - 31) % 31;
+                let mut acc = 0u64;
+                let n: u64 = a.get(8).and_then(|x| x.parse().ok()).unwrap_or(WARMUP8);
+                for i in 0..n {
+                    acc = acc.wrapping_add(construct(kind, i));
+                }
+                println!("WARMUP {} constructions ({})", n, acc);
+            }
             let mut all_orders = Vec::new();
             for _round in 0..rounds {
             let barrier = Arc::new(Barrier::new(if seq { 1 } else { threads }));
